@@ -20,7 +20,7 @@ type c08 struct{}
 func init() {
 	register(c08{})
 	expectedProbes["C08"] = []string{"strict-error-expected", "strict-no-error-expected", "continue-with-bad-ref", "fault-fired-on-followed-ref", "verbatim-schema-ref-kept",
-		"bad:dangling-doc", "bad:dangling-ptr", "bad:ill-typed", "skip-mode", "transient-run", "two-fault-plan", "reuse-sequence", "reuse-later-call-must-fail"}
+		"bad:dangling-doc", "bad:dangling-ptr", "bad:ill-typed", "skip-mode", "transient-run", "two-fault-plan", "reuse-sequence", "reuse-later-call-must-fail", "reuse-sequence-continue-mode"}
 }
 
 func (c08) ID() string { return "C08" }
@@ -34,7 +34,7 @@ func (c08) Rule() string {
 		"distinct by (mode, skip, classes of unresolvable references and holder kinds, fault kinds fired, documents spanned)."
 }
 
-var c08Kinds = []string{sim.FRefuse, sim.FTorn, sim.FFlip, sim.FIllTyped}
+var c08Kinds = []string{sim.FRefuse, sim.FTorn, sim.FFlip, sim.FIllTyped, sim.FTrail}
 
 // exactFault keeps a fault only if the exact oracle can model it: flips must break the JSON
 // syntax (a flip that leaves valid JSON may leave the normal form), ill-typed answers must not
@@ -123,8 +123,9 @@ func (c08) Gen(r *sim.RNG, tier string, idx int) *Scenario {
 			}
 		}
 		if len(defs) > 0 {
+			cont := r.Bool(0.4)
 			for i := 0; i < 2+r.Intn(3); i++ {
-				sc.Ops = append(sc.Ops, Op{Entry: "ExpandSchemaWithBasePath", Ptr: defs[r.Intn(len(defs))], Cache: "reuse"})
+				sc.Ops = append(sc.Ops, Op{Entry: "ExpandSchemaWithBasePath", Ptr: defs[r.Intn(len(defs))], Cache: "reuse", Opts: Opts{Continue: cont}})
 			}
 			var plan []sim.Fault
 			for _, f := range DrawFaults(w, r, 1+r.Intn(2), c08Kinds, reach.Requested, false) {
@@ -368,6 +369,18 @@ func c08Reuse(sc *Scenario, v *Verdict) *Verdict {
 			}
 			v.Evals++
 			v.probe("reuse-sequence")
+			if op.Opts.Continue {
+				v.probe("reuse-sequence-continue-mode")
+				if res.Err != nil {
+					return v.fail("continue-returned-error", "call %d (%s) with ContinueOnError on a reused cache, order key %d: returned %v; plan %v", oi, op.Ptr, k, res.Err, plan)
+				}
+				wout := WorldWithElement(weff, op.Ptr, res.Value)
+				on, _ := wout.NodeAt(w.Root, op.Ptr, model.KSchema)
+				if m := model.Bisim(weff, start, wout, on, model.Mode{Continue: true, Canon: CanonRef}); m != nil {
+					return v.fail("reuse-continue-bisim-"+m.Clause, "call %d (%s), order key %d: %s; plan %v", oi, op.Ptr, k, m.Error(), plan)
+				}
+				continue
+			}
 			if len(reach.Bad) > 0 {
 				v.Sigs = append(v.Sigs, fmt.Sprintf("reuse;%s;op=%d;bad=%s", sc.Mix, oi, badClasses(reach)))
 				if oi > 0 {
